@@ -179,6 +179,7 @@ def run(tier, seed, replay=None):
     )
     relative_resolution(chk)
     equal_identifiers_are_one_key(chk)
+    lookalike_identifiers_keep_their_own_versions(chk)
     names_in_declarations(chk, tier)
     identifiers_on_the_command_line(chk, tier)
     where_from_inside_a_task(chk)
@@ -303,6 +304,68 @@ def equal_identifiers_are_one_key(chk):
                 chk.violation("impl-violation", "TaskIdentifier %s (%r) and %s (%r): %s" % (sa, ka, sb, kb, msg),
                               {"input": {"part": "one-key", "a": sa, "b": sb}, "impl_observation": msg}, match_key={"part": "one-key"}, size=2)
     chk.count("one-key", "pairs", len(objs) * (len(objs) + 1) // 2)
+
+
+def lookalike_identifiers_keep_their_own_versions(chk):
+    """"two different identifiers ... never map to the same output directory" -- and never to each other's VERSIONS: names
+    that differ only in `-` / `_` or only in case (`sweep-1`, `sweep_1`, `Sweep-1`) are different tasks.  One of them has a
+    recorded version; the others have none: `cond where` finds nothing for them, a dependent makes them run (and is handed
+    THEIR new directory), the index records them under their own identifiers, and an archive of one holds only its own
+    versions.  With and without git (the selection reads the index through different queries).  (Seeds C20/k and C02/k:
+    the per-task queries matched the identifier with SQL LIKE, where `_` is a wildcard and ASCII case is folded.)"""
+    import os
+    import sqlite3
+    import subprocess
+    import implrun
+    import archive_util as au
+    import select_util
+
+    env = dict(os.environ, **select_util.GIT_ENV)
+    for use_git in (True, False):
+        files = {"COND": "".join('run_experiment(name="%s", run="echo %s > $COND_OUT/r")\n' % (n, n) for n in ("sweep-1", "sweep_1", "Sweep-1"))
+                         + 'run_command(name="report", run="printf %s \\"$COND_DEPS\\" > $COND_OUT/deps.txt", deps=[":sweep_1"])\n', ".gitignore": "cond-out\n"}
+        root = implrun.make_project(files, git=use_git)
+        if use_git:
+            for a in (("init", "-q", "-b", "main"), ("add", "-A"), ("commit", "-q", "-m", "c0")):
+                subprocess.run(["git"] + list(a), cwd=root, env=env, check=True, capture_output=True)
+        out = os.path.join(root, "cond-out")
+        r1 = implrun.run_cond(["run", "//:sweep-1"], root, env=env)
+        problems = []
+        if r1.code != 0:
+            problems.append("harness: `cond run //:sweep-1` exited %s" % r1.code)
+        for other in ("//:sweep_1", "//:Sweep-1"):
+            w = implrun.run_cond(["where", other], root, env=env)
+            chk.coverage["evaluations"] += 1
+            if w.code == 0:
+                problems.append("`cond where %s` reports %s although only //:sweep-1 has a version" % (other, implrun.strip_ansi(w.out).strip()))
+        r2 = implrun.run_cond(["run", "//:report"], root, env=env)
+        chk.coverage["evaluations"] += 1
+        dirs = sorted(d for d in os.listdir(out) if ".task." in d) if os.path.isdir(out) else []
+        mine = [d for d in dirs if d.startswith("sweep_1.task.")]
+        dp = os.path.join(out, "report.task", "deps.txt")
+        deps = open(dp).read() if os.path.exists(dp) else None
+        if r2.code != 0 or len(mine) != 1 or deps != os.path.join(out, mine[0] if mine else "?"):
+            problems.append("`cond run //:report` (deps=[':sweep_1']) exited %s; outputs of //:sweep_1: %r; COND_DEPS of //:report: %r" % (r2.code, mine, deps))
+        tasks = sorted({r[0] for r in implrun.index_rows(root)})
+        if tasks != ["//:sweep-1", "//:sweep_1"]:
+            problems.append("the index records versions of %r, the experiments that ran are ['//:sweep-1', '//:sweep_1']" % tasks)
+        apath = os.path.join(os.path.dirname(root), "one.tar.gz")
+        a = implrun.run_cond(["archive", "//:sweep_1", "-o", apath], root, env=env)
+        chk.coverage["evaluations"] += 1
+        if a.code == 0 and os.path.isfile(apath):
+            d = au.unpack(apath)
+            atasks = sorted({r[0] for r in au.raw_rows(os.path.join(d, au.AINDEX))})
+            adirs = sorted(x for x in os.listdir(d) if ".task." in x)
+            if atasks != ["//:sweep_1"] or any(not x.startswith("sweep_1.task.") for x in adirs):
+                problems.append("`cond archive //:sweep_1` holds versions of %r (directories %r)" % (atasks, adirs))
+        elif not problems:
+            problems.append("`cond archive //:sweep_1` failed: exit %s %s" % (a.code, implrun.strip_ansi(a.err)[-160:]))
+        chk.count("lookalike", "git" if use_git else "no git")
+        for msg in problems[:2]:
+            chk.violation("impl-violation", "look-alike identifiers (%s): %s" % ("git project" if use_git else "no git", msg),
+                          {"input": {"part": "lookalike", "git": use_git, "files": files}, "oracle_verdict": msg}, match_key={"part": "lookalike"}, size=3)
+        if not problems:
+            chk.coverage["traces_validated_against_impl"] = chk.coverage.get("traces_validated_against_impl", 0) + 4
 
 
 def identifiers_on_the_command_line(chk, tier):
